@@ -260,7 +260,9 @@ func (c *checker) random(w, n int, quick bool) {
 // long inputs: beyond the slab (N*M > 102400 => V1 fallback with a slab),
 // beyond the int32 slab (N > 2048 => heap fallback), patterns > 1000 runes.
 func (c *checker) long(w, n int, quick bool) {
-	shapes := [][2]int{{70000, 3}, {66000, 1200}, {65536, 2}, {65535, 1}, {2049, 50}, {2048, 50}, {2047, 51}, {4000, 26}, {3000, 35}, {1025, 100}, {1024, 100}, {1023, 101}, {5000, 1001}}
+	shapes := [][2]int{{70000, 3}, {66000, 1200}, {65536, 2}, {65535, 1}, {2049, 50}, {2048, 50}, {2047, 51}, {4000, 26}, {3000, 35}, {1025, 100}, {1024, 100}, {1023, 101}, {5000, 1001},
+		// patterns whose full-match score no longer fits 16 bits (about 26 points per character)
+		{1300, 1300}, {1500, 1270}, {3000, 2600}}
 	reps := 1
 	if !quick {
 		reps = 6
@@ -290,7 +292,10 @@ func (c *checker) long(w, n int, quick bool) {
 			}
 			c.r.Count("long_cases", 1)
 			c.r.Sample(map[string]any{"class": "long", "N": N, "M": len(pat), "scheme": c.scheme.Name, "flags": fmt.Sprintf("cs=%v norm=%v fwd=%v", cs, norm, fwd)})
-			c.one(text, pat, cs, norm, fwd, false)
+			for c.force = 1; c.force <= 8; c.force++ {
+				c.one(text, pat, cs, norm, fwd, false)
+			}
+			c.force = 0
 		}
 	}
 }
